@@ -50,16 +50,18 @@ func TestC12(t *testing.T) {
 	defer c.Finish()
 	c.Assume("CometBFT/IAVL proof verification, the 07-tendermint light client and the SDK transaction machinery are the trusted base; light clients are honest (updated only with real headers)")
 	c.Assume("applications are the mock and transfer stacks wired in testing/simapp; channel ends over connection-localhost are not exercised")
-	c.Floor("chan_ends_reaching_open", 60)
+	c.Floor("chan_ends_reaching_open", 110)
+	c.Floor("open_proof_checks", 110)
 	c.Floor("rejected_handshake_msgs", 250)
-	c.Floor("crossing_init_cases", 8)
-	c.Floor("open_proof_checks", 60)
-	c.Floor("both_open_checks", 200)
-	c.Floor("close_confirm_checks", 8)
 	c.Floor("rejected_empty_diff_checked", 250)
-	c.Floor("history_crosschecked", 60)
+	c.Floor("crossing_init_cases", 10)
+	c.Floor("race_scenarios", 3)
+	c.Floor("both_open_checks", 4000)
+	c.Floor("close_confirm_checks", 8)
+	c.Floor("open_while_counterparty_moved_on", 3)
+	c.Floor("history_crosschecked", 120)
 	prof := Profile{Init: 12, Crossing: 4, Honest: 36, Mutated: 26, WrongTarget: 10, Replay: 5, Close: 5, DupPct: 15}
-	n := c.N(22, 40)
+	n := c.N(20, 45)
 	for i := 0; i < n; i++ {
 		if c.SkipCase(i) {
 			continue
@@ -91,23 +93,25 @@ func TestC13(t *testing.T) {
 	defer c.Finish()
 	c.Assume("CometBFT/IAVL proof verification, the 07-tendermint light client and the SDK transaction machinery are the trusted base; light clients are honest (updated only with real headers)")
 	c.Assume("the set of versions a chain supports is what connectiontypes.GetCompatibleVersions() reports (configuration, not part of the oracle)")
-	c.Floor("conn_ends_reaching_open", 40)
-	c.Floor("rejected_handshake_msgs", 200)
-	c.Floor("crossing_init_cases", 8)
-	c.Floor("open_proof_checks", 40)
-	c.Floor("negotiated_version_checks", 40)
-	c.Floor("localhost_msgs_refused", 10)
-	c.Floor("chan_on_conn_checks", 20)
-	c.Floor("chanver_init_refused_on_bad_versions", 10)
-	c.Floor("chanver_try_refused_on_bad_versions", 5)
-	c.Floor("chanver_try_control_accepted", 5)
-	c.Floor("pick_version_cases", 1000)
-	c.Floor("pick_version_success", 100)
-	c.Floor("is_supported_true", 100)
-	c.Floor("history_crosschecked", 40)
+	c.Floor("conn_ends_reaching_open", 160)
+	c.Floor("open_proof_checks", 160)
+	c.Floor("negotiated_version_checks", 180)
+	c.Floor("rejected_handshake_msgs", 250)
+	c.Floor("rejected_empty_diff_checked", 250)
+	c.Floor("crossing_init_cases", 10)
+	c.Floor("race_scenarios", 10)
+	c.Floor("localhost_msgs_refused", 9)
+	c.Floor("chan_on_conn_checks", 75)
+	c.Floor("chanver_init_refused_on_bad_versions", 13)
+	c.Floor("chanver_try_refused_on_bad_versions", 9)
+	c.Floor("chanver_try_control_accepted", 9)
+	c.Floor("pick_version_cases", 1300)
+	c.Floor("pick_version_success", 300)
+	c.Floor("is_supported_true", 300)
+	c.Floor("history_crosschecked", 160)
 	pureVersions(c)
 	prof := Profile{Init: 14, Crossing: 5, Honest: 36, Mutated: 28, WrongTarget: 10, Replay: 7, DupPct: 15}
-	n := c.N(22, 40)
+	n := c.N(20, 45)
 	for i := 0; i < n; i++ {
 		if c.SkipCase(i) {
 			continue
